@@ -331,6 +331,12 @@ def decode_block(data: bytes, e: BatEntry, bo: str) -> dict:
     except Malformed as ex:
         res['error'] = 'malformed: ' + str(ex)
         res['consumed'] = c.p - e.position
+    except (ValueError, TypeError, KeyError, IndexError, OverflowError, MemoryError, RecursionError,
+            _struct.error) as ex:
+        # bytes that trip the decoder in an unforeseen way are still a verdict about the file
+        # ("does not decode within its extent"), never a crash of the check
+        res['error'] = f'malformed: {type(ex).__name__}: {ex}'
+        res['consumed'] = c.p - e.position
     return res
 
 
